@@ -7,7 +7,7 @@ Record case := mk { cubes : list (C14_corr.wexpr * list Z); n : nat; points : li
 
 Definition agree (c : case) : bool :=
   let per_cube := mapr (fun cw => match C14_corr.build (fst cw) with
-                                  | Ok W => match crop_by_values_item W (n c) (points c) true with
+                                  | Ok W => match crop_by_values_item W (snd cw) (points c) true with
                                             | Ok its => Ok (snd cw, its) | Err e => Err e end
                                   | Err e => Err e end) (cubes c) in
   match per_cube with
